@@ -64,9 +64,8 @@ impl IdMap {
             for internal_id_u64 in 0..i2e_len {
                 let record = read_i2e_record(pager, start, internal_id_u64)?;
                 i2e.push(record);
-                if record.external_id != 0 {
-                    e2i.insert(record.external_id, internal_id_u64 as u32);
-                }
+                // Every record below i2e_len is a real node, also the one whose external id is 0.
+                e2i.insert(record.external_id, internal_id_u64 as u32);
                 // Convert single label to vec for backward compat
                 i2l.push(vec![record.label_id]);
             }
